@@ -970,16 +970,19 @@ func (s *Store[K, V]) processSecondary() {
 		tk := item.shard.mu.RLock()
 		// first double check key still exists in map,
 		// not exist means key already deleted by Delete API
-		_, exist := item.shard.get(item.entry.key)
-		if exist {
+		cur, exist := item.shard.get(item.entry.key)
+		// the key may have been deleted and stored again meanwhile: then this
+		// entry object is stale and must not overwrite the secondary copy
+		if exist && cur == item.entry {
 			err := s.secondaryCache.Set(
 				item.entry.key, item.entry.value,
 				item.entry.weight.Load(), item.entry.expire.Load(),
 			)
 			item.shard.mu.RUnlock(tk)
 			if err != nil {
+				// the entry has already left the policy: it still has to
+				// leave the map, or memory grows without bound
 				s.secondaryCache.HandleAsyncError(err)
-				continue
 			}
 			if item.reason == EVICTED {
 				item.shard.mu.Lock()
